@@ -71,12 +71,19 @@ def run(args):
             if rng.random() < 0.15: e[0] = rng.choice(['nope', (1, 2), None, 'rgb(300,0,0)'])
             entries.append(e)
         if entries and rng.random() < 0.4: entries.append(list(entries[0]))
+        if entries and rng.random() < 0.6:
+            # the same spelling again with the other text size (a pair between the large-text and the normal-text minimum is judged differently)
+            e0 = list(rng.choice(entries)); flipped = e0[:2] + ([not e0[2]] if len(e0) == 3 else [True])
+            entries.insert(rng.randrange(len(entries) + 1), flipped)
+        if rng.random() < 0.5:
+            g = rng.randrange(100, 150); col = '#%02x%02x%02x' % (g, g, g)      # grey on white between 3.0 and 7.0
+            pairs2 = [[col, '#ffffff', True], [col, '#ffffff'], [col, '#ffffff', False]]; rng.shuffle(pairs2); entries += pairs2[:rng.randrange(2, 4)]
         if rng.random() < 0.3: rng.shuffle(entries)
         jobs.append((entries, rng.randrange(3), rng.random() < 0.5))
     with mp.get_context('fork').Pool(16) as pool:
         res = pool.map(_twin_case, jobs, chunksize=1)
     bad = [(j, b) for j, b in res if b]
-    ck.bounded.append({'engine': 'E', 'what': 'make_readable_bulk on mixed 2-/3-element lists (all spellings, invalid, duplicated, permuted) vs the single-pair API entry by entry, real code', 'evaluations': sum(len(j[0]) for j in jobs) + len(jobs), 'seed': args.seed, 'bound': f'{len(jobs)} generated lists of 0..6 entries'})
+    ck.bounded.append({'engine': 'E', 'what': 'make_readable_bulk on mixed 2-/3-element lists (all spellings, invalid, duplicated, permuted) vs the single-pair API entry by entry, real code', 'evaluations': sum(len(j[0]) for j in jobs) + len(jobs), 'seed': args.seed, 'bound': f'{len(jobs)} generated lists of 0..10 entries (incl. repeated spellings with the other text size)'})
     ck.add_obligation('E', 'bulk == map(single-pair API) on generated lists (bounded)', 'failed' if bad else 'discharged', 'enumeration(bounded)')
     ck.evaluations += sum(len(j[0]) for j in jobs)
     if bad:
